@@ -20,8 +20,19 @@ TINY = {"depth_quick": 3, "depth_thorough": 4, "graphs_quick": 6,
         "limit_quick": 2500, "limit_thorough": 60000}
 
 
+def _e2e(ck):
+    # process exit code = StudyStatus value of the truthful verdict, through the real command line:
+    # `maestro run -fg` and the detached path's `conductor` entry point on the stored study (all-local
+    # studies incl. failing/flaky steps and cancel locks; a third are studies with scheduled steps under
+    # the launcher's scripted scheduler, compared with the Exec model's trace)  -- harness/e2e.py
+    import random
+    from harness import e2e
+    items = e2e.exit_code_cases(random.Random(ck.seed * 31 + 5), 18 if ck.tier == "quick" else 150)
+    e2e.check_exit_codes(ck, items)
+
+
 def run(ck):
-    return X.run_exec(ck, 5, BIAS, tiny=TINY)
+    return X.run_exec(ck, 5, BIAS, tiny=TINY, extra=_e2e)
 
 
 def replay(ck, path):
